@@ -10,6 +10,7 @@ package harness
 // that the library never touches.
 
 import (
+	"bytes"
 	"context"
 	"errors"
 	"flag"
@@ -630,6 +631,24 @@ func racePrograms() []raceProg {
 				wcl.Close()
 			}
 		}},
+		{"iosizer-eof", func(seed int64) {
+			// several readers drain one source to EOF (and past it) while others write and sample the total
+			src := &lockedReader{r: bytes.NewReader(make([]byte, 40))} // (the source itself is concurrency-safe)
+			s := iosizer.NewSizeReadWriter(src, io.Discard)
+			par(seed, 4, func(i int, r *rand.Rand) {
+				buf := make([]byte, 16)
+				for n := 0; n < 12; n++ {
+					switch i {
+					case 0, 1:
+						_, _ = s.Read(buf[:1+r.Intn(15)])
+					case 2:
+						_, _ = s.Write(buf[:1+r.Intn(8)])
+					default:
+						_ = s.TotalSize()
+					}
+				}
+			})
+		}},
 		{"iosizer", func(seed int64) {
 			pr, pw := io.Pipe()
 			s := iosizer.NewSizeReadWriter(pr, pw)
@@ -654,6 +673,18 @@ func racePrograms() []raceProg {
 			})
 		}},
 	}
+}
+
+// lockedReader makes an io.Reader safe for concurrent use.
+type lockedReader struct {
+	mu sync.Mutex
+	r  io.Reader
+}
+
+func (l *lockedReader) Read(p []byte) (int, error) {
+	l.mu.Lock()
+	defer l.mu.Unlock()
+	return l.r.Read(p)
 }
 
 func TestRaceProgs(t *testing.T) {
